@@ -62,7 +62,7 @@ ASYNC_ENTRIES = ["a" + e for e in SYNC_ENTRIES]
 ENTRIES = SYNC_ENTRIES + ASYNC_ENTRIES
 EXECUTE_ENTRIES = [e for e in ENTRIES if e.endswith(".execute")]
 CALL_ENTRIES = [e for e in ENTRIES if not e.endswith(".execute")]
-BREAKER_ENTRIES = [e for e in ENTRIES if e.lstrip("a").startswith("policy.")]
+BREAKER_ENTRIES = [e for e in ENTRIES if e.lstrip("a").startswith(("policy.", "rp."))]
 
 
 class OddBase(BaseException):
@@ -990,7 +990,7 @@ class Harness:
         if b:
             self.budget = (FalsySpyBudget if b.get("falsy") else SpyBudget)(self._sink, max_retries=b["max"], window_s=b["window"])
         br = cfg.get("breaker")
-        if br and self.kind == "policy":
+        if br and self.kind in ("policy", "rp"):
             kw = dict(
                 failure_threshold=br["threshold"],
                 window_s=br["window"],
@@ -1114,6 +1114,10 @@ class Harness:
             self.obj = (AsyncPolicy if A else Policy)(retry=r, circuit_breaker=self.breaker)
         elif k == "rp":
             self.obj = mk_retry(AsyncRetryPolicy if A else RetryPolicy)
+            if self.breaker is not None:
+                # the sugar takes no breaker argument: the only way to give it one is through its inner policy (`.policy` is a public
+                # property, `circuit_breaker` a public attribute) - every entry point of the sugar then goes through that breaker
+                self.obj.policy.circuit_breaker = self.breaker
         elif k == "deco":
             self.obj = None
         else:
